@@ -252,9 +252,19 @@ static void property(Src& s, Case& c) {
   } else if (mode == 2) {
     text = nesting_text(s, s.coin(1, 8) ? 1000 : 60);
     what = "nesting";
+    if (s.coin(1, 40)) {  // a text longer than the 64 KiB chunk cap (the private copy of the text is one pool request)
+      text = "[\"" + std::string((size_t)s.pick(65400, 70000), 'x') + "\"," + text + "]";
+      what = "nesting+text>64KiB";
+      c.cls("text>64KiB");
+    }
   } else if (mode == 3) {  // containers with many children, failure injected at some depth
     static const int counts[] = {0, 1, 15, 16, 17, 64, 300};
     int n = counts[s.index(7)];
+    if (s.coin(1, 12)) {  // containers whose child table alone is a pool request around / above the 64 KiB chunk cap
+      static const int big[] = {2047, 2048, 2049, 4095, 4096, 4097, 9000};
+      n = big[s.index(7)];
+      c.cls("wide:>=2047-children");
+    }
     std::string inner;
     for (int i = 0; i < n; i++) inner += (i ? "," : "") + std::string(s.coin(1, 2) ? "1" : "\"s\"");
     int depth = s.range(1, 20);
